@@ -24,9 +24,10 @@ def fam_harnesses(fam, tier, what, rows=None, only_borrows=False):
         if only_borrows and not row["borrows"]:
             continue
         for pre in U.residues(row, tier):
-            hs.append(H("inst::" + U.inst_name(fam, row["case"], pre),
-                        bound=f"{row['ty']}: all values (sequence/char bounds per cases.rs), start residue {pre} of unit {row['unit']}, unwind {row['unwind']}",
-                        what=what, role=f"{fam}/{row['case']}"))
+            for sh in U.shapes(row, tier):
+                hs.append(H("inst::" + U.inst_name(fam, row["case"], pre, sh),
+                            bound=f"{row['ty']}: all values (sequence/char bounds per cases.rs; shape {sh} of {row['shapes']}), start residue {pre} of unit {row['unit']}, unwind {row['unwind']}",
+                            what=what, role=f"{fam}/{row['case']}"))
     return hs
 
 
@@ -70,3 +71,140 @@ PLAN["SELFTEST"] = dict(
     ])],
     thorough=[], bounds={}, outside=[], stubs=[], assumptions=[],
 )
+
+RT_STUBS = ["Sink<N>: WriteNoStd into [u8;N]", "Exact: ReadNoStd over a slice", "Al<N>: repr(align(128)) buffer",
+            "core::str::from_utf8 -> env::from_utf8_stub (byte-wise model of UTF-8 well-formedness; std's validator does not fit in memory)"]
+RT_BOUNDS = {"sequence_len": "<= 3 (per case; nested/deep sequences and strings as enumerated shapes, see cases.rs *_SHAPES)",
+             "string_chars": "<= 2, every code point of each UTF-8 width class", "start_residues": "quick {0,1,unit-1}; thorough 0..unit-1"}
+
+
+def rt_plan(pid, fam, what, twin_name, only_borrows=False, stubs=None):
+    PLAN[pid] = dict(
+        quick=lambda seed: [dict(harnesses=fam_harnesses(fam, "quick", what, only_borrows=only_borrows) + [twin(twin_name)])],
+        thorough=lambda seed: [dict(harnesses=fam_harnesses(fam, "thorough", what, only_borrows=only_borrows) + [twin(twin_name)], timeout=1800)],
+        bounds=RT_BOUNDS, outside=COMMON_OUTSIDE, stubs=stubs or RT_STUBS, assumptions=[])
+
+
+rt_plan("C01", "c01", "serialize -> deserialize_full (real ReaderWithPos) == original; bytes consumed == bytes written", "c01::c01_twin_reach")
+rt_plan("C02", "c02", "eps == original under the substitution; eps == full on the same bytes; both consume exactly the stream", "c01::c01_twin_reach")
+rt_plan("C03", "c03", "every borrowed part == the block the Probe writer recorded (pointer identity), in bounds, aligned", "c01::c01_twin_reach", only_borrows=True,
+        stubs=RT_STUBS + ["Probe: WriteWithNames delegating to the real WriterWithPos, logging align/write_bytes events"])
+PLAN["C03"]["outside"] = COMMON_OUTSIDE + ["the allocation-count sub-claim (allocated memory independent of borrowed lengths): Kani offers no allocation counter; pointer identity of every borrowed part with the input buffer is decided instead"]
+
+
+def c07_jobs(tier):
+    hs = fam_harnesses("c07", tier, "unit is a power of two >= align; block offset % unit == 0; gap zero, < unit, minimal; byte counts exact")
+    hs += [H("c07::c07_pad_formula", bound="all v: usize x all 64 power-of-two units", what="pad_align_to: multiple, < unit, minimal"),
+           H("c07::c07_units", bound="every zero-copy type of the universe (concrete evaluation)", what="max_size_of is a power of two >= align_of and >= every field's unit"),
+           twin("c07::c07_twin_reach")]
+    return [dict(harnesses=hs, timeout=600 if tier == "quick" else 1800)]
+
+
+PLAN["C07"] = dict(quick=lambda seed: c07_jobs("quick"), thorough=lambda seed: c07_jobs("thorough"),
+                   bounds=RT_BOUNDS, outside=COMMON_OUTSIDE,
+                   stubs=RT_STUBS + ["Probe: WriteWithNames delegating to the real WriterWithPos, logging align/write_bytes events"], assumptions=[])
+
+
+def c12_harnesses(tier):
+    hs = []
+    for row in U.ROWS:
+        if not (row["unit"] > 1 or row["borrows"]):
+            continue
+        if tier == "quick" and not row["quick"]:
+            continue
+        for sh in U.shapes(row, tier):
+            hs.append(H("inst::" + U.inst_name("c12", row["case"], "x", sh),
+                        bound=f"{row['ty']}: all values, shape {sh}; buffer base residue R symbolic in 0..128",
+                        what="Ok iff every recorded block lands on a multiple of its unit, else AlignmentError; references aligned",
+                        role=f"c12/{row['case']}", covers="none"))
+    return hs
+
+
+PLAN["C12"] = dict(
+    quick=lambda seed: [dict(harnesses=c12_harnesses("quick") + [twin("c12::c12_twin_reach")], timeout=900)],
+    thorough=lambda seed: [dict(harnesses=c12_harnesses("thorough") + [twin("c12::c12_twin_reach")], timeout=3600)],
+    bounds=dict(RT_BOUNDS, base_residue="all R in 0..128 (symbolic) of a 128-aligned buffer; stream offset 0"),
+    outside=COMMON_OUTSIDE, stubs=RT_STUBS + ["Probe (as C07)"], assumptions=["CBMC places objects at maximally aligned bases: misplacement is the explicit offset R"])
+
+
+def names(mod, lst, **kw):
+    return [H(f"{mod}::{n}", **kw) for n in lst]
+
+
+C10_TYPES = ["u32", "bool", "u64", "tup2", "arru32x1", "optu8"]
+PLAN["C10"] = dict(
+    quick=lambda seed: [dict(harnesses=names("c10", [f"c10_{t}_{m}" for t in ["u32", "tup2", "optu8"] for m in ("eps", "full")],
+                                             bound="all 2^232 values of the 29 fixed header bytes; value symbolic", what="priority-list oracle: specific error carrying the offending value, or the value")
+                             + [twin("c10::c10_twin_reach")])],
+    thorough=lambda seed: [dict(harnesses=names("c10", [f"c10_{t}_{m}" for t in C10_TYPES for m in ("eps", "full")],
+                                                bound="all 2^232 values of the 29 fixed header bytes; value symbolic", what="priority-list oracle")
+                                + [twin("c10::c10_twin_reach")], timeout=1800)],
+    bounds={"header": "all 29 bytes symbolic at once (superset of single-bit flips, reversed cookie, all 65536 minors)",
+            "stream": "<= 64 bytes (reader types with short type names: u32, bool, u64, (u16,u16), [u32;1], Option<u8>)"},
+    outside=["corruption of the type-name length/bytes (not a checked field)", "reader types whose stream exceeds 64 bytes (CBMC loses field sensitivity; check_header is generic code, only the two hash constants and the name differ per type)"],
+    stubs=["Sink", "Exact", "Al", "core::str::from_utf8 -> env::from_utf8_stub"], assumptions=[])
+
+PLAN["C13"] = dict(
+    quick=lambda seed: [dict(harnesses=names("c13", ["c13_slice_u8", "c13_slice_u32", "c13_slice_deep", "c13_struct_with_slice", "c13_seriter", "c13_serialize_flush",
+                                                       "c13_short_writes_u32", "c13_owned_u64", "c13_owned_vecu32", "c13_owned_str", "c13_owned_vecvec", "c13_owned_deeps",
+                                                       "c13_owned_zeros", "c13_owned_e5", "c13_owned_optvec", "c13_owned_arrstr"],
+                                             bound="failure position symbolic in 0..=N, values symbolic", covers="none") + [twin("c13::c13_twin_reach")])],
+    thorough=lambda seed: [dict(harnesses=names("c13", ["c13_slice_u8", "c13_slice_u32", "c13_slice_deep", "c13_struct_with_slice", "c13_seriter", "c13_serialize_flush",
+                                                          "c13_short_writes_u32", "c13_owned_u64", "c13_owned_vecu32", "c13_owned_str", "c13_owned_vecvec", "c13_owned_deeps",
+                                                          "c13_owned_zeros", "c13_owned_e5", "c13_owned_optvec", "c13_owned_arrstr"],
+                                                bound="failure position symbolic in 0..=N, values symbolic", covers="none") + [twin("c13::c13_twin_reach")], timeout=1800)],
+    bounds={"fail_at": "every position 0..=stream length (symbolic)", "short_writes": "<= 6 write calls on a 4-byte value: symbolic short counts, Interrupted, Ok(0)"},
+    outside=["BufWriter<File>, /dev/full, real ENOSPC (FFI)", "io::Error kinds other than Interrupted / WriteZero"],
+    stubs=["Faulty<N>: WriteNoStd failing at a symbolic position / on flush", "ShortW<N>: io::Write with symbolic short counts"], assumptions=[])
+
+C15_ALL = ["c15_option_u8_full", "c15_option_u8_eps", "c15_option_u8_eps_tag_only", "c15_option_vec_eps", "c15_bound_u32_full", "c15_bound_u32_eps",
+           "c15_controlflow_full", "c15_controlflow_eps", "c15_en_u8_full", "c15_en_u8_eps", "c15_e1_full", "c15_e1_eps", "c15_e2_full", "c15_e2_eps",
+           "c15_e5_full", "c15_e5_eps"]
+PLAN["C15"] = dict(
+    quick=lambda seed: [dict(harnesses=names("c15", C15_ALL, bound="all 256 one-byte tags / all 2^64 pointer-width tags, payload symbolic",
+                                             what="Ok(variant) iff tag is the one the real serializer writes for it, else InvalidTag(tag)") + [twin("c15::c15_twin_reach")])],
+    thorough=lambda seed: [dict(harnesses=names("c15", C15_ALL, bound="all tags, payload symbolic", what="tag oracle") + [twin("c15::c15_twin_reach")], timeout=1800)],
+    bounds={"tags": "all 256 byte values (Option, Bound, ControlFlow); all 2^64 usize values (derived enums En, E1, E2; E5: written tag or any foreign value)"},
+    outside=["a valid tag of a *different* variant placed before a payload (payload misinterpretation, not a tag property)", "derived enums outside the universe"],
+    stubs=["Sink", "Al"], assumptions=[])
+
+C16_ALL = ["c16_hdr_u16", "c16_hdr_u64", "c16_hdr_zeros", "c16_inner_u8_p0", "c16_inner_u16_p1", "c16_inner_u64_p3", "c16_inner_u128_p5", "c16_inner_zeros_p2",
+           "c16_inner_unit_p0", "c16_inner_slice_deep", "c16_hdr_nested", "c16_deser_as_vec", "c16_lying_u16", "c16_lying_u64"]
+PLAN["C16"] = dict(
+    quick=lambda seed: [dict(harnesses=names("c16", C16_ALL, bound="items symbolic, len <= 3; (announced, actual) in 0..=4 x 0..=4", covers="none") + [twin("c16::c16_twin_reach")], timeout=900)],
+    thorough=lambda seed: [dict(harnesses=names("c16", C16_ALL, bound="items symbolic, len <= 3", covers="none") + [twin("c16::c16_twin_reach")], timeout=2400)],
+    bounds={"len": "<= 3", "lying": "announced, actual <= 4"}, outside=["longer sequences", "iterators with side effects"],
+    stubs=["Sink", "Al", "Exact", "Liar: ExactSizeIterator with symbolic announced/actual lengths"], assumptions=[])
+
+
+def c19_grid():
+    import re, os
+    src = open(os.path.join(os.path.dirname(os.path.dirname(os.path.abspath(__file__))), "harness", "src", "c19_grid.rs")).read()
+    return re.findall(r"^\s+(c19_[wr]_a\d+_l\d+_p\d+_n\d+):", src, re.M)
+
+
+def c19_jobs(tier):
+    g = c19_grid()
+    if tier == "quick":
+        keep = []
+        for n in g:
+            m = __import__("re").match(r"c19_([wr])_a(\d+)_l(\d+)_p(\d+)_n(\d+)", n)
+            k, a, l, p, w = m.group(1), int(m.group(2)), int(m.group(3)), int(m.group(4)), int(m.group(5))
+            if a == 64:
+                if w == 2 and l in (1, 64) :
+                    keep.append(n)
+            elif l in (0, 15, 17, 32) and w in (0, 2, 17) and p in (0, l, l + 1, 16, 33):
+                keep.append(n)
+        g = keep
+    hs = names("c19", ["c19_seek_empty_a16", "c19_seek_len5_a16", "c19_seek_len17_a64"], bound="all pos: usize x all SeekFrom (u64/i64)", what="seek vs std::io::Cursor")
+    hs += names("c19", g, bound="(len,pos,n) grid point, byte contents symbolic", what="one write/read step vs the real std::io::Cursor + representation invariant", covers="none")
+    hs += names("c19", ["c19_history_a16"], bound="write 3, set_position <= 20, write 2, seek End(-8..8), read 4", what="short history vs std", covers="none")
+    hs += [twin("c19::c19_twin_reach")]
+    return [dict(harnesses=hs, timeout=600 if tier == "quick" else 1800)]
+
+
+PLAN["C19"] = dict(quick=lambda seed: c19_jobs("quick"), thorough=lambda seed: c19_jobs("thorough"),
+                   bounds={"grid": "len in {0,1,15,16,17,31,32,33}, pos in {0,1,len-1,len,len+1,15,16,17,31,32,33,40}, n in {0,1,2,16,17}; A64: len in {0,1,63,64,65}",
+                           "seek": "no bound: all 2^64 positions x all SeekFrom"},
+                   outside=["positions near usize::MAX (std aborts on capacity overflow)", "states larger than 57 bytes", "histories longer than 3 steps"],
+                   stubs=[], assumptions=["std::io::Cursor<Vec<u8>> run on the same inputs inside the harness is the reference"])
